@@ -256,10 +256,8 @@ def judge(out, tag, case, res, ref, mag, x, w, want_shape, dtype):
             out.fail(f"{tag}/{'nonfinite' if nonfin else 'exact-value'}", f"{int(bad.sum())}/{bad.numel()} outputs differ from the exactly representable product, e.g. {r64.reshape(-1)[i].item()!r} vs {ref.reshape(-1)[i].item()!r}")
         return
     tol = (K + 4) * u * mag + 3 * u * ref.abs() + eta
-    if isinstance(x, QBytesTensor) and isinstance(w, QBytesTensor):
-        sp = float(x._scale.to(torch.float64).abs().min()) * float(w._scale.to(torch.float64).abs().min())
-        if sp > 0:
-            tol = tol + (mag / sp) * eta  # gradual underflow of the documented input_scale * weight_scale product
+    # (no allowance for the product of the two scales: it is a single multiplication that float32 holds exactly enough; a
+    # product formed in float16 underflows for ordinary scales and is a defect, D46)
     fin = ref.abs() + tol < gen.FMAX[dtype]
     bad = fin & ~((r64 - ref).abs() <= tol)
     if bool(bad.any()):
@@ -320,23 +318,24 @@ def exec_case(case):
     elif entry in ("op", "routes"):
         # the library op and the three python route functions, called directly where their preconditions hold
         if isinstance(x, QBytesTensor):
-            a, scales = x._data, x._scale * w._scale
+            # the caller's contract: the product of the two scales, formed in float32; the result has the scales' dtype
+            a, scales = x._data, x._scale.to(torch.float32) * w._scale.to(torch.float32)
         else:
             a, scales = x, w._scale
         if scales.ndim == 0:
             scales = scales.reshape(1, 1).expand(case["outf"], 1).contiguous()
         refnb, magnb = reference(x, w, None)
         if entry == "op":
-            res = cut(torch.ops.quanto.qbytes_mm, a, w._data, scales)
+            res = cut(lambda: torch.ops.quanto.qbytes_mm(a, w._data, scales).to(dtype))
             judge(out, f"op/{tagbase}", case, res, refnb, magnb, x, w, want_shape, dtype)
         else:
-            res = cut(ORIG["qbytes_mm"], a, w._data, scales)
+            res = cut(lambda: ORIG["qbytes_mm"](a, w._data, scales).to(dtype))
             judge(out, f"route-float/{tagbase}", case, res, refnb, magnb, x, w, want_shape, dtype)
             if a.dtype == torch.int8 and w._data.dtype == torch.int8 and case["inf"] > 1:
-                res = cut(ORIG["qbytes_int_mm"], a, w._data, scales)
+                res = cut(lambda: ORIG["qbytes_int_mm"](a, w._data, scales).to(dtype))
                 judge(out, f"route-int/{tagbase}", case, res, refnb, magnb, x, w, want_shape, dtype)
             if a.dtype == torch.bfloat16 and w._data.dtype == torch.int8 and case["inf"] % 16 == 0:
-                res = cut(ORIG["qbytes_int8pack_mm"], a, w._data, scales)
+                res = cut(lambda: ORIG["qbytes_int8pack_mm"](a, w._data, scales).to(dtype))
                 judge(out, f"route-int8pack/{tagbase}", case, res, refnb, magnb, x, w, want_shape, dtype)
     # weights that live at an address which is not 16-byte aligned (memory-mapped checkpoints), and ANOTHER set of weights
     # written later to the very same address (a staging buffer reused for the next checkpoint): each call sees its own weights
